@@ -219,3 +219,108 @@ def gen_clir(src_dir):
         out.append('Definition gen_%s_access : string * string * string := ("%s", "%s", "%s")%%string.\n' % (fn, norm[0], norm[1], norm[2]))
     out.append('\n')
     return ''.join(out).replace("From RbpfV Require Import ClirSem.", "From Coq Require Import String.\nFrom RbpfV Require Import ClirSem.")
+
+
+# ------------------------------------------------------------------ src/jit.rs: bookkeeping of jump targets
+
+def gen_jitlogic(src_dir):
+    from rsemit import Emitter
+    env, _ = U.read_consts(src_dir)
+    toks = U.load(src_dir, 'jit.rs')
+    out = [U.HDR % 'src/jit.rs (jump-target bookkeeping of jit_compile / resolve_jumps, the register map)', "From RbpfV Require Import Ebpf.\n\n"]
+    _, body = R.parse_fn(toks, 'jit_compile')
+    found = {'target_pc': [], 'pc_locs': []}
+
+    def walk(e):
+        if isinstance(e, tuple) and e and e[0] == 'let' and e[1][0] == 'ppath' and e[1][1] == 'target_pc':
+            found['target_pc'].append(e[3])
+        if isinstance(e, tuple) and e and e[0] == 'assign' and show(e[2]) == 'self.pc_locs':
+            found['pc_locs'].append(e[3])
+        if isinstance(e, (tuple, list)):
+            for x in e:
+                walk(x)
+    walk(body)
+    if len(found['target_pc']) != 2 or len(found['pc_locs']) != 1:
+        raise Unsupported("jit_compile: expected two `let target_pc = ..` and one `self.pc_locs = ..` (found %d, %d)"
+                          % (len(found['target_pc']), len(found['pc_locs'])))
+    leaves = {'insn_ptr': ('insn_ptr', 'USZ')}
+    leaves.update(U.insn_leaves('insn', 'insn'))
+    names = {'insn.off': 'gen_jit_jump_target', 'insn.imm': 'gen_jit_call_target'}
+    seen = set()
+    for e in found['target_pc']:
+        txt = show(e)
+        key = 'insn.off' if 'insn.off' in txt else 'insn.imm' if 'insn.imm' in txt else None
+        if key is None or key in seen:
+            raise Unsupported("jit_compile: target_pc expression %s" % txt)
+        seen.add(key)
+        em = Emitter(env, leaves)
+        t, ty = em.expr(e)
+        if ty != 'ISZ':
+            raise Unsupported("target_pc has type %s" % ty)
+        out.append("Definition %s (insn_ptr : Z) (insn : insn) : res Z :=\n  %s.\n\n" % (names[key], Emitter.wrap_binds(em.take_binds(), 'Ok %s' % t)))
+    e = found['pc_locs'][0]
+    if e[0] != 'macro' or e[1] != 'vec':
+        raise Unsupported("pc_locs initialiser")
+    groups = []
+    cur = []
+    for tk in e[2]:
+        if tk[0] == 'op' and tk[1] == ';':
+            groups.append(cur)
+            cur = []
+        else:
+            cur.append(tk)
+    groups.append(cur)
+    if len(groups) != 2:
+        raise Unsupported("pc_locs: vec![x; n] expected")
+    n_ast = R.Parser(groups[1] + [('eof', '', None, -1)]).expr()
+    em = Emitter(env, {})
+    U.get_insn_hook(em)
+    t, ty = em.expr(n_ast)
+    out.append("Definition gen_jit_pc_locs_len (prog : list Z) : res Z :=\n  %s.\n\n" % Emitter.wrap_binds(em.take_binds(), 'Ok %s' % t))
+    # resolve_jumps: the only indexing of pc_locs by a jump target
+    _, body = R.parse_fn(toks, 'resolve_jumps')
+    idx = []
+
+    def walk2(e):
+        if isinstance(e, tuple) and e and e[0] == 'index' and show(e[1]) == 'self.pc_locs':
+            idx.append(e[2])
+        if isinstance(e, (tuple, list)):
+            for x in e:
+                walk2(x)
+    walk2(body)
+    if len(idx) != 1:
+        raise Unsupported("resolve_jumps: expected one indexing of self.pc_locs")
+    em = Emitter(env, {'jump.target_pc': ('target_pc', 'ISZ')})
+    t, ty = em.expr(idx[0])
+    if em.binds or ty != 'USZ':
+        raise Unsupported("resolve_jumps: index expression")
+    out.append("Definition gen_jit_resolve_index (target_pc : Z) : Z :=\n  %s.\n\n" % t)
+    # REGISTER_MAP
+    i = 0
+    regs = None
+    while i < len(toks) - 3:
+        if toks[i][1] == 'const' and toks[i + 1][1] == 'REGISTER_MAP':
+            j = i
+            while toks[j][1] != '=':
+                j += 1
+            k = R.find_matching(toks, j + 1)
+            names_ = [t_[1] for t_ in toks[j + 2:k] if t_[0] == 'id']
+            regs = names_
+            break
+        i += 1
+    if regs is None:
+        raise Unsupported("REGISTER_MAP not found")
+    consts = {}
+    for name, ty, e_, line in R.consts(toks):
+        try:
+            consts[name] = U.eval_const(e_, {})
+        except Unsupported:
+            pass
+    try:
+        vals = [consts[r] for r in regs]
+    except KeyError as ex:
+        raise Unsupported("REGISTER_MAP entry %s" % ex)
+    out.append("Definition gen_register_map : list Z := [%s].\n" % '; '.join(str(v) for v in vals))
+    out.append("Definition gen_jit_scratch : list Z := [%s].   (* RCX, R10, R11, RSP: used by the emitted code itself *)\n"
+               % '; '.join(str(consts[r]) for r in ('RCX', 'R10', 'R11', 'RSP')))
+    return ''.join(out)
